@@ -22,9 +22,13 @@ def run(chk):
                      materials=(('X',), (7,)) if quick else (('X',), (1,), (5, 'Y'), (7,)))
     E.replay_all(chk, recs, 'C15')
     # string assignments including the empty string, three deep (the string is read and set again after it was emptied)
-    recs3 = E.explore(chk, 'strings3', ['\\begin{c}x\\end{c} \\t{T}'], 3, ['set_string', 'append', 'delete', 'args_append', 'insert', 'replace_with'], names=('zz',), strs=('', 'u'),
+    recs3 = E.explore(chk, 'strings3', ['\\begin{c}x\\end{c} \\t{T}'], 3, ['set_string', 'append', 'delete', 'args_append'], names=('zz',), strs=('', 'u'),
                       materials=(('',), ('X',), ('', 1)))
     E.replay_all(chk, recs3, 'C15')
+    # an empty string followed by a node in one insert / replace (the node must land right behind the empty piece)
+    recs2 = E.explore(chk, 'empty-then-node', ['\\begin{c}x\\end{c} \\t{T}'], 2, ['insert', 'replace_with', 'set_string'], names=('zz',), strs=('', 'u'),
+                      materials=(('', 1), ('X',)))
+    E.replay_all(chk, recs2, 'C15')
     for r in recs[:1] + recs[-2:]:
         chk.sample({'source': from_atoms(r['i']), 'history': [E.show_op(e['op']) for e in r['h']], 'text_after': from_atoms(r['h'][-1]['obs']['t'])})
     srcs = c05.TWINS
